@@ -58,7 +58,9 @@ add("C07", "other",
     "vs impulse response within 2 x threshold, tail magnitudes outside the advertised supports, realness) and is decided by the bounded "
     "stand-in on the statement's exact domain, including the library's default configurations." + MIX, TB)
 add("C08", "other",
-    "Proved: alias_factory_subclass_from_arg over all argument shapes (instance / str / mapping with alias, name, both, neither): which constructor "
+    "Proved: AliasedFactory.from_alias on flat families of ANY size (a root with n direct subclasses, as every shipped family is): an instance of "
+    "the last registered subclass carrying the alias - the root only if no subclass does - built with exactly the caller's arguments, ValueError iff "
+    "nobody carries it; alias_factory_subclass_from_arg over all argument shapes (instance / str / mapping with alias, name, both, neither): which constructor "
     "call is made with which keywords, KeyError when neither key is present, the caller's mapping never mutated. Registry resolution is exhaustive "
     "by enumeration (AST-read class table vs the real from_alias) and shadowing / nested JSON round trips are bounded." + MIX, TB)
 add("C09", "other",
